@@ -63,6 +63,7 @@ package netflow5
 //@   ensures validV5(old(d.reader.base)) ==> (forall k :: 0 <= k && k < be16(old(d.reader.base), 2) ==> flowAt(result.Flows[k], old(d.reader.base), 24 + 48*k))
 //@   ensures !validV5(old(d.reader.base)) ==> result == nil || len(result.Flows) == 0
 //@   ensures result == nil ==> err != nil
+//@   ensures result != nil ==> jssafe(result.AgentID) && result.AgentID == ipText(d.raddr)
 //@   modifies d.reader.data, d.reader.count
 //@   opt unreachable cover.ret.3   // the default branch of the type switch is dead: nonfatalError is an interface type every error implements
 
@@ -73,26 +74,65 @@ package netflow5
 //@   loop 1
 //@     invariant true
 
-// ---- JSON encoding --------------------------------------------------------------------------------
+// ---- JSON encoding (C05, C08) ------------------------------------------------------------------------
+//@ pred jsKey5(j ghost.JSON, d mathint) = (j.Ph == 2 || j.Ph == 3) && jstop(j) == 1 && j.Dp == d && jscanon(j)
+// dotted-quad text of a 32-bit address, most significant octet first
+//@ spec dotted4(a mathint) string = ipText4(a / 16777216, (a / 65536) % 256, (a / 256) % 256, a % 256)
 
 //@ func (*Message).JSONMarshal
-//@   requires b != nil
+//@   requires b != nil && b.js.Ph == 0 && b.js.Dp == 0 && jscanon(b.js) && jssafe(m.AgentID)
+//@   ensures [valid] err == nil ==> b.js.Ph == 8
 //@   modifies b
 
 //@ func (*Message).encodeAgent
-//@   requires b != nil
+//@   requires b != nil && jsKey5(b.js, 1) && jssafe(m.AgentID)
+//@   ensures b.js == jsset(old(b.js), 3)
+//@   slot AgentID m.AgentID
 //@   modifies b
 
 //@ func (*Message).encodeHeader
-//@   requires b != nil
+//@   requires b != nil && jsKey5(b.js, 1)
+//@   ensures b.js == jsset(old(b.js), 3)
+//@   slot Version m.Header.Version
+//@   slot Count m.Header.Count
+//@   slot SysUpTimeMSecs m.Header.SysUpTimeMSecs
+//@   slot UNIXSecs m.Header.UNIXSecs
+//@   slot UNIXNSecs m.Header.UNIXNSecs
+//@   slot SeqNum m.Header.SeqNum
+//@   slot EngType m.Header.EngType
+//@   slot EngID m.Header.EngID
+//@   slot SmpInt m.Header.SmpInt
 //@   modifies b
 
 //@ func (*Message).encodeFlow
-//@   requires b != nil
+//@   requires b != nil && jsKey5(b.js, 3) && b.js.Ph == 2
+//@   ensures b.js == jsset(old(b.js), 5)
+//@   slot SrcAddr dotted4(r.SrcAddr)
+//@   slot DstAddr dotted4(r.DstAddr)
+//@   slot NextHop dotted4(r.NextHop)
+//@   slot Input r.Input
+//@   slot Output r.Output
+//@   slot PktCount r.PktCount
+//@   slot L3Octets r.L3Octets
+//@   slot StartTime r.StartTime
+//@   slot EndTime r.EndTime
+//@   slot SrcPort r.SrcPort
+//@   slot DstPort r.DstPort
+//@   slot Padding1 r.Padding1
+//@   slot TCPFlags r.TCPFlags
+//@   slot ProtType r.ProtType
+//@   slot Tos r.Tos
+//@   slot SrcAsNum r.SrcAsNum
+//@   slot DstAsNum r.DstAsNum
+//@   slot SrcMask r.SrcMask
+//@   slot DstMask r.DstMask
+//@   slot Padding2 r.Padding2
 //@   modifies b
 
 //@ func (*Message).encodeFlows
-//@   requires b != nil
+//@   requires b != nil && jsKey5(b.js, 1) && b.js.Ph == 3
+//@   ensures err == nil ==> b.js == jsset(old(b.js), 5)
 //@   modifies b
 //@   loop 1
-//@     invariant b != nil
+//@     invariant b != nil && fLength == len(m.Flows) && err == nil
+//@     invariant b.js == jsset(pre(b.js), range_i == 0 ? 1 : (range_i < len(m.Flows) ? 0 : 5)) && pre(b.js).Dp == 2 && jstop(pre(b.js)) == 2 && jscanon(pre(b.js))
